@@ -138,6 +138,8 @@ Section SlurmStep.
   Let procs := run_val st (s "procs").
   Let cptv := run_val st cpt_key.
   Let parf := parf_slurm (addl_args st).
+  Definition tsub_slurm (f : tokform) : str := parf (snd (tok_vals f)) (fst (tok_vals f)).
+  Definition bsub_slurm : str := parf procs nodes.
 
   Lemma parf_srun : forall p n, parf p n = srun_text (tval p) (tval n) (tval cptv).
   Proof. intros. unfold parf, parf_slurm, srun_text. rewrite slurm_extra_addl. reflexivity. Qed.
@@ -211,17 +213,17 @@ Section SlurmStep.
   Qed.
 
   Lemma launch_ok_final : forall ps p, pieces_wf ps = true -> In p ps ->
-    launch_good (launch_ok_slurm st) (final_seg parf nodes procs) p.
+    launch_good (launch_ok_slurm st) (final_seg tsub_slurm bsub_slurm) p.
   Proof.
     intros ps p W I. unfold launch_good. destruct p as [t| |f]; auto.
     - (* bare *)
       destruct (launch_read procs nodes _ _ _ (pv_count RTasks ltac:(discriminate) CP)
                             (pv_count RNodes ltac:(discriminate) CN) pv_cpt) as [R S].
-      simpl seg_text. split.
+      simpl seg_text. unfold bsub_slurm. split.
       + unfold launch_ok_slurm. fold procs nodes in R. rewrite R. apply reads_as_srun.
       + intro E. rewrite E in S. discriminate S.
     - (* token *)
-      simpl seg_text. unfold tok_sub.
+      simpl seg_text. unfold tsub_slurm.
       pose proof (pieces_tok_wf ps f W I) as TW.
       destruct (pv_tok f TW) as [Pp Pn].
       destruct (launch_read _ _ _ _ _ Pp Pn pv_cpt) as [R S]. split.
@@ -229,13 +231,14 @@ Section SlurmStep.
       + intro E. rewrite E in S. discriminate S.
   Qed.
 
-  Lemma tok_sub_ok : forall f, tok_wf f = true -> sub_ok (tok_sub parf f) = true.
+  Lemma tok_sub_ok : forall f, tok_wf f = true -> sub_ok (tsub_slurm f) = true.
   Proof.
-    intros f TW. unfold tok_sub. destruct (pv_tok f TW) as [Pp Pn].
+    intros f TW. unfold tsub_slurm. destruct (pv_tok f TW) as [Pp Pn].
     destruct (launch_read _ _ _ _ _ Pp Pn pv_cpt) as [_ S]. auto.
   Qed.
-  Lemma bare_sub_ok : sub_ok (parf procs nodes) = true.
+  Lemma bare_sub_ok : sub_ok bsub_slurm = true.
   Proof.
+    unfold bsub_slurm.
     destruct (launch_read procs nodes _ _ _ (pv_count RTasks ltac:(discriminate) CP)
                           (pv_count RNodes ltac:(discriminate) CN) pv_cpt) as [_ S]. auto.
   Qed.
@@ -584,8 +587,8 @@ Proof.
     + apply andb_true_iff in H. destruct H as [H1 H2]. rewrite H1, IHr. auto.
 Qed.
 
-Lemma final_no_var : forall parf nodes procs ps,
-  existsb (fun x => is_var x || is_tok x) (map (final_seg parf nodes procs) ps) = false.
+Lemma final_no_var : forall tsub bsub ps,
+  existsb (fun x => is_var x || is_tok x) (map (final_seg tsub bsub) ps) = false.
 Proof. induction ps as [|p r]; simpl; auto. destruct p; simpl; auto. Qed.
 
 Lemma srun_text_head : forall p n c, exists t, srun_text p n c = 115 :: t.
@@ -625,10 +628,7 @@ Section SlurmScript.
   Hypothesis Sb : truthy vb = true /\ safe_tok (render vb) = true.
   Hypothesis Sq : truthy vq = true /\ safe_tok (render vq) = true.
 
-  Let nodes := run_val st (s "nodes").
-  Let procs := run_val st (s "procs").
-  Let parf := parf_slurm (addl_args st).
-  Definition fin (ps : list piece) : str := segs_text (map (final_seg parf nodes procs) ps).
+  Definition fin (ps : list piece) : str := segs_text (map (final_seg (tsub_slurm st) (bsub_slurm st)) ps).
   Let lines := slurm_lines b st vh vb vq.
 
   Lemma nogpu_prop : match declared (st_res st) RGpus, declared (b_kw b) RGpus with
@@ -644,10 +644,10 @@ Section SlurmScript.
     intros ps W S. destruct ps as [|p r]. discriminate S. unfold fin. rewrite map_cons, segs_text_cons.
     destruct p as [t0| |f]; simpl seg_text.
     - destruct t0 as [|c0 t0]. discriminate S. exists c0. eexists. split. rewrite <- !app_assoc. reflexivity. exact S.
-    - destruct HP. unfold parf, nodes, procs. rewrite parf_srun.
+    - destruct HP. unfold bsub_slurm. rewrite parf_srun.
       destruct (srun_text_head (tval (run_val st (s "procs"))) (tval (run_val st (s "nodes"))) (tval (run_val st cpt_key))) as [t E].
       rewrite E. exists 115. eexists. split. rewrite <- !app_assoc. reflexivity. reflexivity.
-    - unfold tok_sub, parf. rewrite parf_srun.
+    - unfold tsub_slurm. rewrite parf_srun.
       destruct (srun_text_head (tval (snd (tok_vals f))) (tval (fst (tok_vals f))) (tval (run_val st cpt_key))) as [t E].
       rewrite E. exists 115. eexists. split. rewrite <- !app_assoc. reflexivity. reflexivity.
   Qed.
@@ -687,13 +687,15 @@ Section SlurmScript.
     - apply forallb_forall. intros k I. rewrite RD. apply Nat.leb_le. apply count_fixed. auto.
     - apply negb_true_iff. rewrite <- E. unfold fin.
       change [nl] with (seg_text (SSub [nl])).
-      replace (segs_text (map (final_seg parf nodes procs) ps) ++ seg_text (SSub [nl]))
-        with (segs_text (map (final_seg parf nodes procs) ps ++ [SSub [nl]])).
+      replace (segs_text (map (final_seg (tsub_slurm st) (bsub_slurm st)) ps) ++ seg_text (SSub [nl]))
+        with (segs_text (map (final_seg (tsub_slurm st) (bsub_slurm st)) ps ++ [SSub [nl]])).
       2:{ rewrite segs_text_app. reflexivity. }
       destruct HP.
       rewrite contains_var_segs.
       + rewrite existsb_app. rewrite final_no_var. reflexivity.
-      + apply segs_ok_snoc; [|reflexivity]. apply final_seg_ok; auto.
+      + apply segs_ok_snoc; [|reflexivity].
+        apply (final_seg_ok (par_slurm (addl_args st)) (tsub_slurm st)); auto.
+        * intros f TW. apply par_slurm_eq.
         * intros f TW. apply tok_sub_ok; auto.
         * apply bare_sub_ok; auto.
     - rewrite <- E. unfold fin. destruct HP. apply match_body_final.
@@ -734,7 +736,6 @@ Section SchedCmd.
   Let st := c_step c.
   Let nodes := run_val st (s "nodes").
   Let procs := run_val st (s "procs").
-  Let parf := parf_slurm (addl_args st).
 
   Lemma run_get_nodes : run_get st (s "nodes") = Some nodes.
   Proof. apply run_get_val. split; reflexivity. reflexivity. Qed.
@@ -752,16 +753,17 @@ Section SchedCmd.
 
   Lemma substitute_slurm : forall ps, pieces_wf ps = true ->
     substitute (par_slurm (addl_args st)) nodes procs (pieces_text ps) =
-    if alloc_rejected st ps then Err Diag else Ok (segs_text (map (final_seg parf nodes procs) ps)).
+    if alloc_rejected st ps then Err Diag else Ok (segs_text (map (final_seg (tsub_slurm st) (bsub_slurm st)) ps)).
   Proof.
     intros ps W. destruct HP.
-    rewrite (substitute_ext _ (fun p n => Ok (parf p n))) by (intros; apply par_slurm_eq).
     destruct (total_run_val st RNodes ltac:(discriminate) hp_nodes0) as [M1 _].
     destruct (total_run_val st RTasks ltac:(discriminate) hp_procs0) as [M2 _].
-    assert (TOK : forall f, tok_wf f = true -> sub_ok (tok_sub parf f) = true)
-      by (intros f TW; apply tok_sub_ok; auto).
-    rewrite (substitute_spec parf (total_of st RNodes) (total_of st RTasks) TOK nodes procs M1 M2 ps W).
-    rewrite rejects_alloc by auto. reflexivity.
+    rewrite (substitute_spec (par_slurm (addl_args st)) (tsub_slurm st) (total_of st RNodes) (total_of st RTasks))
+      with (bsub := bsub_slurm st); auto.
+    - rewrite rejects_alloc by auto. reflexivity.
+    - intros f TW. apply par_slurm_eq.
+    - intros f TW. apply tok_sub_ok; auto.
+    - intros _. apply par_slurm_eq.
   Qed.
 
   Lemma sched_cmd_spec :
@@ -769,8 +771,8 @@ Section SchedCmd.
     if schedulable st then
       if alloc_rejected st (c_cmd c) then Err Diag
       else if alloc_rejected st (c_restart c) then Err Diag
-      else Ok (true, segs_text (map (final_seg parf nodes procs) (c_cmd c)),
-               segs_text (map (final_seg parf nodes procs) (c_restart c)))
+      else Ok (true, segs_text (map (final_seg (tsub_slurm st) (bsub_slurm st)) (c_cmd c)),
+               segs_text (map (final_seg (tsub_slurm st) (bsub_slurm st)) (c_restart c)))
     else Ok (false, st_cmd st, st_restart st).
   Proof.
     unfold scheduler_command. rewrite run_get_nodes, run_get_procs. rewrite schedulable_truthy.
@@ -875,8 +877,8 @@ Proof.
     unfold header_slurm. rewrite (header_lines_slurm_eq b st vh vb vq) by (destruct HP; auto). cbn [bind].
     rewrite form_cmd_eq. cbn [bind].
     set (lines := slurm_lines b st vh vb vq).
-    set (cmd' := segs_text (map (final_seg (parf_slurm (addl_args st)) (run_val st (s "nodes")) (run_val st (s "procs"))) (c_cmd c))).
-    set (rst' := segs_text (map (final_seg (parf_slurm (addl_args st)) (run_val st (s "nodes")) (run_val st (s "procs"))) (c_restart c))).
+    set (cmd' := segs_text (map (final_seg (tsub_slurm st) (bsub_slurm st)) (c_cmd c))).
+    set (rst' := segs_text (map (final_seg (tsub_slurm st) (bsub_slurm st)) (c_restart c))).
     assert (G1 : slurm_script_ok c (c_cmd c) (join [nl] lines ++ nl :: nl :: cmd' ++ [nl]) = true).
     { apply (slurm_script_good c HP BP K6 BE vh vb vq); auto; destruct HP; auto. }
     unfold restart_part.
